@@ -70,6 +70,9 @@ type verifEngC struct {
 	failedOps  map[int]bool // indices into fakeBackend.ops of operations that reported an injected error
 	curWhich   string
 	curKind    string
+	// states written during the operation being settled (crash points)
+	recording   bool
+	checkpoints []*verifCheckpoint
 	body      func(s *verifEngC, c *check.C)
 	permute   bool
 	revertedNotBlocked map[int]bool
@@ -359,6 +362,10 @@ func verifBodyHistory(s *verifEngC, gc *check.C) {
 	defer release.MockOnClassic(onClassic)()
 	s.wrapHandlers()
 	defer s.releaseAll()
+	crashes := (c.Prop == "C10" || c.Prop == "C11") && c.Draw("restarts-while-undoing", 2) == 1
+	if crashes {
+		s.recordCheckpoints()
+	}
 	s.opErrAt, s.failedOps = -1, map[int]bool{}
 	s.fakeBackend.maybeInjectErr = func(op *fakeOp) error {
 		if s.opErrAt < 0 || s.opErrFired || s.failFired || s.curWhich != "do" || s.curKind == "check-rerefresh" {
@@ -619,7 +626,10 @@ func verifBodyHistory(s *verifEngC, gc *check.C) {
 		}
 		st.Unlock()
 		c.Logf("op %d: %s with kept=%v current=%d active=%v retain=%d (%d tasks)", i, desc, bseq, before.Current.N, before.Active, retainCfg, nTasks)
-		if !s.settle(abortChg, chg) {
+		s.checkpoints, s.recording = nil, crashes
+		ok := s.settle(abortChg, chg)
+		s.recording = false
+		if !ok {
 			st.Lock()
 			dump := ""
 			for _, t := range chg.Tasks() {
@@ -710,6 +720,11 @@ func verifBodyHistory(s *verifEngC, gc *check.C) {
 				}
 				c.Violate(cls, "%s failed (%v) but the system side differs: before %s after %s", desc, status, bw, aw)
 			}
+		}
+
+		// ---- restarts while the failed operation was being undone
+		if crashes && failed && len(c.Violations) == 0 && (kind == "install" || kind == "refresh" || kind == "revert") && verifJSON(afterProj) == verifJSON(beforeProj) {
+			s.crashSweepAfterFailedOp(desc, verifSnapName, initial, beforeProj, s.checkpoints)
 		}
 
 		// ---- C11
